@@ -80,6 +80,8 @@ func propC18(w *World, r *Report, tier string) {
 	}
 	checkParserSeqRules(w, r, "uePolicyContainer", nil)
 	r.Expect("seq.fresh-elem", 5)
+	checkFreshDecodeTargets(w, r, "uePolicyContainer", "UePolDeliverySer.UePolDeliverySerDecode")
+	r.Expect("dec.fresh-target", 3)
 	// PLMN octets of the section-management sublists: same TS 24.008 digit order as every other PLMN encoder
 	checkPlmnEncoders(w, r, map[string]bool{"uePolicyContainer.SubList": true, "uePolicyContainer.SubResult": true})
 	lenFromContent(w, r, "uePolicyContainer", func(name string) bool { return strings.Contains(name, "MarshalBinary") || strings.HasPrefix(name, "Encode") }, []string{
